@@ -44,7 +44,7 @@ impl Scenario for SubsScenario {
 		300
 	}
 	fn setup(&self) -> SrvState {
-		smem::setup(&SrvCfg { conns: self.conns.iter().cloned().map(Conn::Ws).collect(), scripts: self.scripts.clone(), stop: self.stop, buffer: self.buffer, max_subs: self.max_subs, max_resp: self.max_resp, wide_ids: if self.max_resp > 0 { self.max_resp as usize + 28 } else { 0 }, ..Default::default() })
+		smem::setup(&SrvCfg { conns: self.conns.iter().cloned().map(Conn::Ws).collect(), scripts: self.scripts.clone(), stop: self.stop, buffer: self.buffer, max_subs: self.max_subs, max_resp: self.max_resp, wide_ids: if self.max_resp > 0 { self.max_resp as usize + 28 } else if self.name.contains("string-ids") { 3 } else { 0 }, ..Default::default() })
 	}
 	fn judge(&self, _st: SrvState, trace: &[String], panics: &[String], status: Status) -> Verdict {
 		let mut v = monitor(trace, self.conns.len());
@@ -244,6 +244,9 @@ pub fn scenarios(thorough: bool) -> Vec<SubsScenario> {
 		SubsScenario { name: String::from("accept-cancelled-under-backpressure"), conns: vec![vec![Call, Subscribe(0), Call]], scripts: vec![vec![AcceptCancellable, ReturnErr]], stop: false, mask: mask_all_server, buffer: 1, max_subs: 16, max_resp: 0 },
 		// the accept() answer exceeds max_response_body_size: the peer is told -32008, so the subscription was never accepted
 		SubsScenario { name: String::from("oversized-accept-answer"), conns: vec![vec![Subscribe(0), Call]], scripts: vec![vec![Accept, Send, Send, ReturnMsg]], stop: false, mask: mask_sub_points, buffer: 16, max_subs: 16, max_resp: 100 },
+		// string subscription ids (id provider): the id travels as a JSON string in responses, notifications and unsubscribe params
+		SubsScenario { name: String::from("string-ids:unsubscribe-vs-sends"), conns: vec![vec![Subscribe(0), Unsub(0)]], scripts: vec![vec![Accept, Send, IsClosed, Send, ReturnErr]], stop: false, mask: mask_harness_only, buffer: 16, max_subs: 16, max_resp: 0 },
+		SubsScenario { name: String::from("string-ids:two-subs-foreign-unsub"), conns: vec![vec![Subscribe(0), UnsubForeign(1, 0)], vec![Subscribe(1)]], scripts: vec![vec![Accept, Send, IsClosed], vec![Accept, Send, IsClosed, Send]], stop: false, mask: mask_harness_only, buffer: 16, max_subs: 16, max_resp: 0 },
 		SubsScenario { name: String::from("tiny-buffer"), conns: vec![vec![Subscribe(0), Call, Unsub(0)]], scripts: vec![vec![Accept, Send, Send, Send, IsClosed]], stop: false, mask: mask_harness_only, buffer: 1, max_subs: 16, max_resp: 0 },
 	];
 	if thorough {
